@@ -111,6 +111,15 @@ func negCallOf(p *an.Prog, v ssa.Value) *ssa.Call {
 }
 
 func runC01(p *an.Prog, r *an.Run, tier string) {
+	transfer := checkLedgerWriters(p, r)
+	runC01rest(p, r, transfer)
+}
+
+// checkLedgerWriters: writers / error-discipline — every function outside the drivers that writes the ledger is a pure
+// forwarder (own parameters handed through verbatim, result returned), a paired transfer or a settlement consume, and
+// no ledger error is dropped. Shared with C07: a wrapper that books a settlement under another spelling of the account
+// than the one it reads the balance under leaves the paid credit in place. Returns the paired transfer.
+func checkLedgerWriters(p *an.Prog, r *an.Run) *ssa.Function {
 	// ---- writers / error discipline
 	type writer struct {
 		fn    *ssa.Function
@@ -197,6 +206,10 @@ func runC01(p *an.Prog, r *an.Run, tier string) {
 		}
 	}
 
+	return transfer
+}
+
+func runC01rest(p *an.Prog, r *an.Run, transfer *ssa.Function) {
 	// ---- pairing in the paired transfer
 	if transfer == nil {
 		r.Undec("pairing", "paired-transfer", token.NoPos, "no paired transfer (credits + negated debit) found among the ledger writers; expected payPerInterval.OnUpdate")
